@@ -5,6 +5,8 @@ package sim
 import (
 	"context"
 	"fmt"
+	"os"
+	"path/filepath"
 	"strings"
 	"syscall"
 	"time"
@@ -132,7 +134,15 @@ func c09Run(c *vcore.Ctx) *vcore.Violation {
 		go func() {
 			select {
 			case pid := <-pidCh:
-				time.Sleep(40 * time.Millisecond)
+				// only once the target program itself is executing (the callback runs before the exec, and
+				// killing the launching child would be a failed launch, not an ending of the program)
+				for i := 0; i < 2000; i++ {
+					if exe, err := os.Readlink(fmt.Sprintf("/proc/%d/exe", pid)); err != nil || strings.HasSuffix(exe, filepath.Base(probePath)) {
+						break
+					}
+					time.Sleep(2 * time.Millisecond)
+				}
+				time.Sleep(20 * time.Millisecond)
 				syscall.Kill(pid, syscall.SIGKILL)
 			case <-time.After(50 * time.Second):
 			}
